@@ -13,7 +13,7 @@
 (* Order of visits is NOT part of the property; the conformance checks     *)
 (* therefore compare multisets / use the order-free trace spec.            *)
 (***************************************************************************)
-EXTENDS Naturals, Sequences, FiniteSets, TLC, SequencesExt, FiniteSetsExt, Json, IOUtils
+EXTENDS Naturals, Sequences, FiniteSets, TLC, SequencesExt, FiniteSetsExt, Json, IOUtils, NdMapFn
 
 CONSTANTS MaxDim,      \* dimensionalities 1..MaxDim
           ExtBound     \* function: dimension |-> largest extent enumerated (extents 0..ExtBound[n])
@@ -28,13 +28,7 @@ Product(s) == FoldFunction(LAMBDA a, b: a * b, 1, s)
 Box(s) == {t \in [1..Len(s) -> 0..(Max({s[k] : k \in 1..Len(s)} \cup {0}))] :
               \A k \in 1..Len(s) : t[k] < s[k]}
 
-\* the recursion as coded ---------------------------------------------------
-RECURSIVE Visits(_)
-Visits(s) ==
-  IF Len(s) = 1
-  THEN [i \in 1..s[1] |-> <<i - 1>>]
-  ELSE LET tl == Visits(Tail(s))
-       IN  FlattenSeq([i \in 1..s[1] |-> [j \in 1..Len(tl) |-> <<i - 1>> \o tl[j]]])
+\* the recursion as coded: Visits(s), in NdMapFn
 
 NoDup(q) == \A a, b \in 1..Len(q) : q[a] = q[b] => a = b
 
